@@ -87,12 +87,7 @@ func (tr *fnTrans) queryText2(o *Obligation, wantModel bool, relaxed bool) strin
 	}
 	sb.WriteString(coreText)
 	sb.WriteString("\n")
-	for _, d := range v.opaqueDecls {
-		if relaxed {
-			d = stripQuantified(d)
-		}
-		sb.WriteString(d + "\n")
-	}
+	sb.WriteString("\x00OPAQUE\x00")
 	for _, n := range tr.mapOrder {
 		hi := tr.maps[n]
 		sb.WriteString(fmt.Sprintf("(declare-const %s %s)\n", tr.heapEntry(n), heapSortName(hi)))
@@ -137,7 +132,37 @@ func (tr *fnTrans) queryText2(o *Obligation, wantModel bool, relaxed bool) strin
 	if wantModel {
 		sb.WriteString("(get-model)\n")
 	}
-	return sb.String()
+	// boxing functions (interface <-> concrete value) are declared only when the query mentions them: the set of
+	// boxes ever created depends on which other functions were translated, and a query must not
+	body := sb.String()
+	var od strings.Builder
+	for _, d := range v.opaqueDecls {
+		if strings.HasPrefix(d, "(declare-fun box_") {
+			name := d[len("(declare-fun "):]
+			name = name[:strings.IndexAny(name, " ")]
+			if !strings.Contains(body, name) && !strings.Contains(body, "is_"+strings.TrimPrefix(name, "box_")) {
+				continue
+			}
+		}
+		if strings.HasPrefix(d, "(declare-sort M_") || strings.HasPrefix(d, "(declare-sort I_") {
+			name := d[len("(declare-sort "):]
+			name = name[:strings.IndexAny(name, " ")]
+			used := strings.Contains(body, name)
+			for _, d2 := range v.opaqueDecls {
+				if d2 != d && strings.Contains(d2, name) {
+					used = true // e.g. a field of a struct sort
+				}
+			}
+			if !used {
+				continue // a map / interface sort created for some other function
+			}
+		}
+		if relaxed {
+			d = stripQuantified(d)
+		}
+		od.WriteString(d + "\n")
+	}
+	return strings.Replace(body, "\x00OPAQUE\x00", od.String(), 1)
 }
 
 func sortStrings(s []string) {
